@@ -34,7 +34,7 @@ package proj
 //@ func Parse
 //@   trusted registry lookup / parsers (C20); for the registered name WGS84 the result is the shared definition whose datum type is pjdWGS84
 //@   opt writes=SR,datum,alloc
-//@   ensures [ok] result1 == nil ==> result0 != nil && result0.datum != nil && len(result0.Axis) == 3
+//@   ensures [ok] result1 == nil ==> result0 != nil && result0.datum != nil && datumParamsOK(result0.datum) && len(result0.Axis) == 3
 //@   ensures [wgs84] result1 == nil && code == "WGS84" ==> result0.datum.datum_type == pjdWGS84 && result0.DatumCode == "WGS84"
 //@   modifies nothing
 
@@ -46,10 +46,34 @@ package proj
 //@   ensures [keeps] sr.Name == old(sr.Name) && sr.Axis == old(sr.Axis) && biteq(sr.ToMeter, old(sr.ToMeter)) && biteq(sr.FromGreenwich, old(sr.FromGreenwich)) && sr.datum == old(sr.datum) && sr.DatumCode == old(sr.DatumCode)
 //@   modifies *sr
 
+//@ pred datumParamsOK(d *datum) = d != nil && (d.datum_type == pjd3Param ==> len(d.datum_params) >= 3) && (d.datum_type == pjd7Param ==> len(d.datum_params) >= 7)
+
+//@ func (this *datum) compare_datums
+//@   prop C10, C09
+//@   mode real
+//@   requires [datums] datumParamsOK(this) && datumParamsOK(dest)
+//@   ensures [different_type_differs] this.datum_type != dest.datum_type ==> !result
+//@   modifies nothing
+
+//@ func (this *datum) geocentric_to_geodetic
+//@   prop C10, C09
+//@   mode real
+//@   requires [datum] this != nil
+//@   modifies nothing
+//@   loop 1 `for {`
+//@     invariant 0 <= iter && iter <= 30
+//@     decreases 30 - iter
+
+//@ func checkDatumParams
+//@   inline
+
 //@ func datumTransform
-//@   trusted verified separately under C09 (datum_transform.go)
-//@   opt writes=none
-//@   requires [nonnil] source != nil && dest != nil
+//@   prop C10, C09
+//@   mode real
+//@   requires [source_datum] datumParamsOK(source)
+//@   requires [dest_datum] datumParamsOK(dest)
+//@   ensures [no_shift_for_nodatum] result3 == nil && (source.datum_type == pjdNoDatum || dest.datum_type == pjdNoDatum) ==> result0 == x@0 && result1 == y@0 && result2 == z@0
+//@   ensures [gridshift_unsupported] (source.datum_type == pjdGridShift || dest.datum_type == pjdGridShift) && source.datum_type != pjdNoDatum && dest.datum_type != pjdNoDatum && source.datum_type != dest.datum_type ==> result3 != nil
 //@   modifies nothing
 
 //@ func adjust_axis
@@ -77,7 +101,7 @@ package proj
 //@   prop C10
 //@   mode real
 //@   opt noframe=SR
-//@   requires [captured] *source != nil && *dest != nil && (*source).datum != nil && (*dest).datum != nil && len((*source).Axis) == 3 && len((*dest).Axis) == 3
+//@   requires [captured] *source != nil && *dest != nil && (*source).datum != nil && (*dest).datum != nil && datumParamsOK((*source).datum) && datumParamsOK((*dest).datum) && len((*source).Axis) == 3 && len((*dest).Axis) == 3
 //@   ensures [captured_kept] *source == old(*source) && *dest == old(*dest)
 //@   ensures [state_equiv] (*source).Name == old((*source).Name) && (*source).Axis == old((*source).Axis) && biteq((*source).ToMeter, old((*source).ToMeter)) && biteq((*source).FromGreenwich, old((*source).FromGreenwich)) && (*source).datum == old((*source).datum) && (*dest).Name == old((*dest).Name) && (*dest).Axis == old((*dest).Axis) && biteq((*dest).ToMeter, old((*dest).ToMeter)) && biteq((*dest).FromGreenwich, old((*dest).FromGreenwich)) && (*dest).datum == old((*dest).datum)
 //@   modifies **source, **dest
